@@ -3,8 +3,8 @@ package main
 // C15: masking.
 
 import (
-	"math"
 	"fmt"
+	"math"
 	"math/rand"
 
 	"github.com/evolbioinfo/goalign/align"
